@@ -41,7 +41,8 @@ Rnd == Area("continental plate", "rnd", RectU(FALSE, 1100, 0, 1500, 500), 0, 200
 Doc == World(Cartesian, KSFeatures(FALSE) \o <<Rnd>>) @@ ("cross section" :> <<XY(FALSE, 0, 250), XY(FALSE, 1000, 250)>>)
 
 ProbesKm == << <<100, 250, 50>>, <<250, 250, 100>>, <<600, 250, 120>>, <<800, 250, 130>>, <<300, 250, 20>>,
-               <<1700, 250, 50>>, <<250, 250, 0>>, <<1300, 250, 50>>, <<400, 700, 30>> >>
+               <<1700, 250, 50>>, <<250, 250, 0>>, <<1300, 250, 50>>, <<400, 700, 30>>,
+               <<250, 250, -5>>, <<1700, 250, -2>> >>            \* above the surface: a negative depth is a depth like any other
 P3(pr) == [p |-> <<pr[1]*Km, pr[2]*Km, H - pr[3]*Km>>, dim |-> 3, depth |-> pr[3]*Km]
 P2(pr) == [p |-> <<pr[1]*Km, H - pr[3]*Km>>, dim |-> 2, depth |-> pr[3]*Km]
 Points == {P3(ProbesKm[i]) : i \in 1..Len(ProbesKm)} \cup {P2(ProbesKm[i]) : i \in {j \in 1..Len(ProbesKm) : ProbesKm[j][2] = 250}}
@@ -115,7 +116,7 @@ DocSph == World(Spherical("begin segment"), KSFeatures(TRUE)
           @@ ("cross section" :> <<XY(TRUE, 0, 250), XY(TRUE, 1000, 250)>>)
 LDocs == {"capi_cart", "capi_sph"}
 LSeeds == {1, 4, 5, 6}                                   \* indices into Seeds: 1, 2^31 - 1, 2^32 + 5, 0
-LProbes == {2, 4, 7, 8}                                  \* continent + mantle + plume, slab, surface, random plate
+LProbes == {2, 4, 7, 8, 10}                                 \* continent + mantle + plume, slab, surface, random plate
 LPoint(doc, i, d) ==
   LET pr == ProbesKm[i] IN
   IF doc = "capi_cart" THEN (IF d = 3 THEN P3(pr) ELSE P2(pr))
